@@ -3,6 +3,8 @@
 package c07
 
 import (
+	"fmt"
+
 	"pgregory.net/rapid"
 
 	. "verif/harness/lang"
@@ -18,6 +20,8 @@ type G struct {
 	Misused bool
 	// LazyOperand: a list argument of a built-in is a lazy pipeline
 	LazyOperand bool
+	// Deferred: the pipeline is bound to a local and read behind further lets
+	Deferred bool
 }
 
 func (g *G) n(max int, label string) int {
@@ -587,6 +591,25 @@ func (g *G) Expr() *Expr {
 	stages := g.n(4, "stages")
 	for i := 0; i < stages; i++ {
 		cur = g.listStage(cur, 2)
+	}
+	if stages > 0 && g.n(6, "deferred") == 0 {
+		// the pipeline is bound to a local, more locals are declared behind it, and only
+		// then it is read: let lz=...; let p0=1; let p1=p0+1; ...; [terminal(lz), p<last>]
+		g.Deferred = true
+		k := 2 + g.n(4, "laterLets")
+		var res *Expr = Var("lz")
+		if g.n(5, "noTerminal") != 0 {
+			res = g.listTerminal(res, 2)
+		}
+		out := List(res, Var(fmt.Sprintf("p%d", k-1)))
+		for i := k - 1; i >= 0; i-- {
+			val := Int(1)
+			if i > 0 {
+				val = Bin("+", Var(fmt.Sprintf("p%d", i-1)), Int(1))
+			}
+			out = Let(fmt.Sprintf("p%d", i), val, out)
+		}
+		return Let("lz", cur, out)
 	}
 	if g.n(5, "noTerminal") == 0 {
 		return cur
